@@ -355,12 +355,18 @@ def run_one(world, run, bytecode, stats):
                         arg = names[0] if (op.get("as_str") and len(names) == 1) else list(names)
                         tc = tuple(chk.rsplit(".", 1)) if (op.get("tuple_form") and chk) else chk
                         mgrs[op["id"]] = jaxtyping.install_import_hook(arg, tc)
-                        if op.get("with"):
+                        if op.get("with") and not op.get("enter_later"):
                             mgrs[op["id"]].__enter__()
                     hooks.append({"id": op.get("id"), "names": names, "checker": op["checker"], "active": True})
                     stats.inc("op:install")
                 except Exception as e:
                     problems.append({"what": "install_import_hook raised", "op": op, "exc": repr(e)})
+            elif k == "enter":
+                # the split spelling: hook = install_import_hook(...); ...other hooks, imports...; with hook: ...
+                m = mgrs.get(op["id"])
+                if m is not None:
+                    m.__enter__()
+                    stats.inc("op:enter_later")
             elif k == "uninstall":
                 m = mgrs.get(op["id"])
                 if m is not None:
